@@ -1,20 +1,30 @@
 PROPERTY = "C08"
 LEVEL = "proof"
-LEAN_MODULES = ["CifModel.Props.C08", "CifModel.Props.ReviewC08"]
+LEAN_MODULES = ["CifModel.Props.C08", "CifModel.Props.C08Buf", "CifModel.Props.ReviewC08"]
 REQUIRED = ["CifModel.C08_firstChar_link", "CifModel.C08_fold_prefix", "CifModel.C08_fold_any_chunking",
             "CifModel.C08_chunking_irrelevant", "CifModel.C08_style_independent", "CifModel.C08_handle_eol",
             "CifModel.C08_line_numbers", "CifModel.C08_unrepaired_first_char", "CifModel.C08_cex_three_cr",
             "CifModel.C08_buffer_moves_preserve_token", "CifModel.C08_buffer_cases", "CifModel.C08_buffer_room",
             "CifModel.C08_buffer_init", "CifModel.C08_ws_lengthening", "CifModel.C08_ws_lengthening_insert",
-            "CifModel.C08_ws_lengthening_any_chunking"]
+            "CifModel.C08_ws_lengthening_any_chunking",
+            "CifModel.C08_bufscan_refines_lexer", "CifModel.C08_bufscan_refines_lexer_tree",
+            "CifModel.C08_bufscan_boundaries_irrelevant", "CifModel.C08_bufscan_style_independent", "CifModel.C08_bufscan_refill",
+            "CifModel.C08_bufscan_offsets_ordered", "CifModel.C08_bufscan_trim_token", "CifModel.C08_bufscan_push_colon",
+            "CifModel.C08_bufscan_pushback_streams", "CifModel.C08_bufscan_terminator_fits"]
 GEN = ["ParseConsts"]
-FAMILIES = ["fills", "align"]
+FAMILIES = ["fills", "align", "bufscan"]
 TRUSTED_BASE = [
     "Lean 4.33.0 kernel; axioms propext, Quot.sound, Classical.choice only",
     "Model/Fill.lean as a description of get_first_char / get_more_chars / HANDLE_EOL (parser.c): tied by family `fills`, which "
     "drives the real static functions (parser.c is #included into the executor) and the whole cif_parse_internal with a "
     "character source that delivers a chosen chunking — exhaustively for every string over {a,CR,LF} up to length 6 (quick) / 8 "
     "(thorough) under every chunking",
+    "Model/BufScan.lean as a description of next_token / scan_ws / scan_to_ws / scan_to_eol / scan_unquoted / scan_delim_string / "
+    "scan_triple_delim_string / scan_text and the macros NEXT_CHAR / PEEK_CHAR / BACK_UP / CONSUME_TOKEN / SCAN_UCHAR / HANDLE_EOL / "
+    "TVALUE_* over buffer offsets with get_more_chars in the middle of a token: tied by family `bufscan`, which runs the real static "
+    "next_token (parser.c #included) with a chosen chunking and a chosen small initial scan buffer and compares tokens, reports "
+    "(code, line, column) and the five buffer offsets + buffer_size after every token; the decision logic of SCAN_UCHAR, HANDLE_EOL's "
+    "arithmetic and the reserved-word test are shared with Model/Lexer.lean (group gD, tied by family `lex`)",
     "tools/translate_consts.py: BUF_SIZE_INITIAL, BUF_MIN_FILL, BUFFER_SIZE, the literal read sizes of get_first_char, the "
     "cr_pending update of get_more_chars, whether get_first_char folds a look-ahead CR (C08_firstChar_link)",
     "Spec/Eol.lean (normalizeEOL, lineAfter, respell) as the meaning of 'the same whether lines end in LF, CR LF or CR'",
@@ -23,19 +33,27 @@ TRUSTED_BASE = [
     "ICU's byte->UTF-16 converters (ucnv_toUnicode) across 4096-byte refills: exercised by family `align`, not modelled",
 ]
 ASSUMPTIONS = [
-    "the number of units each read_func call asks for (a function of the scan buffer's bookkeeping: reset / move / doubling in "
-    "get_more_chars) is a universally quantified parameter of the theorems (any sequence of sizes >= 1) and is observed from the "
-    "real run by the executor; the buffer moves themselves (memmove, malloc, text_start / tvalue_start rebasing) are "
-    "correspondence-only (ASan on)",
+    "in the fill-level theorems (C08_fold_*) the number of units each read_func call asks for is a universally quantified "
+    "parameter (any sequence of sizes >= 1), observed from the real run by the executor; in the buffer-level theorems "
+    "(C08_bufscan_*) it is computed by the model (buffer_size - buffer_limit after makeRoom) and the buffer moves (reset, memmove, "
+    "doubling, rebasing of text_start / tvalue_start / next_char) are part of the proved refinement; malloc failure "
+    "(CIF_MEMORY_ERROR) and read errors are not modelled",
     "read_func returns between 1 and `count` units while input remains and 0 at its end (contract of read_chars_f)",
     "every EOL-class unit the scanners pass goes through HANDLE_EOL with `sol` reset by any other unit (scan_ws, "
     "scan_triple_delim_string, scan_text as written)",
 ]
 PARTIAL = [
-    "the 4096-byte refill of ustream_read_chars and ICU's incremental conversion are observed, not modelled (family align); the "
-    "scan buffer's compaction / doubling is modelled (Model/ScanBuf.lean, C08_buffer_moves_preserve_token) and tied by fills "
-    "mode o, but the composition 'every scanner function re-reads its pointers after a refill' (the G2 class of defect) is "
-    "correspondence-only",
+    "the 4096-byte refill of ustream_read_chars and ICU's incremental conversion are observed, not modelled (family align)",
+    "C08_bufscan_refines_lexer covers the SCANNER (get_first_char, then next_token / CONSUME_TOKEN until END or abort, every scan "
+    "function, every refill in the middle of a token, any chunking, any initial buffer size >= 2, any BUF_MIN_FILL >= 1). NOT covered by "
+    "the refinement of the whole PARSER: of what the grammar productions do to the buffer between two next_token calls, TRIM_TOKEN and "
+    "the colon push-back are modelled at buffer level, proved equal to group gJ's Parser.trimTok / Parser.pushColon "
+    "(C08_bufscan_trim_token, C08_bufscan_push_colon, C08_bufscan_pushback_streams: token streams in which pushed-back units are "
+    "scanned again) and tied by the ops mode of family bufscan; but the productions themselves are not re-stated over the buffer, so "
+    "a token pointer kept by a production across a next_token call, the write and restore of the NUL terminator behind a BLOCK_HEAD / "
+    "FRAME_HEAD token (only its being inside the buffer array is proved: C08_bufscan_terminator_fits), the BOM / magic-code prologue of cif_parse_internal (scan_to_ws followed "
+    "by `next_char = text_start`), the text handed to the whitespace callback and decode_text's own terminator handling remain "
+    "correspondence-only (fills P, align, parsedoc)",
     "C08_ws_lengthening requires the two separators to end in the same column (lengthening blanks in front of a token on the "
     "same line moves the token: `;` in column 1 and the 2048-character limit make that a genuine precondition) and a "
     "callback policy that does not look at line numbers",
@@ -45,10 +63,40 @@ LEVEL_TEXT = ("Proof for terminator folding and chunking: Lean theorems over ALL
               "(C08_fold_any_chunking), hence any function of it — content, error codes, line numbers — is independent of "
               "terminator style (C08_style_independent, C08_line_numbers), and that HANDLE_EOL counts CR LF once on any "
               "stream (C08_handle_eol); the buffer moves of get_more_chars preserve the token being scanned for every state "
-              "(C08_buffer_moves_preserve_token) and every read asks for >= 1 units (C08_buffer_room); replacing a separator by "
+              "(C08_buffer_moves_preserve_token) and every read asks for >= 1 units (C08_buffer_room); the scanner written over buffer "
+              "offsets (next_token and the seven scan functions with NEXT_CHAR / PEEK_CHAR / BACK_UP / SCAN_UCHAR / TVALUE_*, "
+              "get_more_chars called in the middle of tokens, `top` re-read where the C re-reads it) produces, for EVERY input, EVERY "
+              "chunking, every initial buffer size >= 2 and every policy, exactly the tokens (type, text, line, column), return value "
+              "and reports of the list-level lexer model on normalizeEOL(input) (C08_bufscan_refines_lexer, by one simulation lemma "
+              "per scan function over the loop iterations; corollaries C08_bufscan_boundaries_irrelevant, "
+              "C08_bufscan_style_independent; C08_bufscan_offsets_ordered: at every token text_start <= tvalue_start, "
+              "tvalue_start + tvalue_length <= next_char <= buffer_limit <= buffer_size; C08_bufscan_terminator_fits: the unit behind a "
+              "BLOCK_HEAD / FRAME_HEAD value, where the parser writes its string terminator, is inside the buffer array); replacing a separator by "
               "any other whitespace/comment run leaves the whole following token stream unchanged up to the line shift "
               "(C08_ws_lengthening, on gD's C01_lex_sep plus the line-shift invariance of the lexer model proved here).")
-LEVEL_NOTE = ("Partial in the respects named in PARTIAL (byte-buffer refills / ICU observed only; same-column precondition of "
-              "C08_ws_lengthening). Trusted: Lean kernel, the hand-written Fill model "
-              "(tied exhaustively on short streams and by random long ones), translate_consts.py, harness + oracles.")
-TECHNIQUE = "Lean 4 proof by induction over chunkings with the carried scanner state as invariant + exhaustive/random differential execution of the real fill functions and parser"
+LEVEL_NOTE = ("Partial in the respects named in PARTIAL (byte-buffer refills / ICU observed only; of the productions' own buffer "
+              "manipulations between tokens TRIM_TOKEN and the colon push-back are proved, REJECT_TOKEN, the in-buffer NUL "
+              "terminator, the BOM / magic prologue are correspondence-only; same-column precondition of C08_ws_lengthening). Trusted: Lean kernel, the hand-written Fill, "
+              "ScanBuf and BufScan models (tied exhaustively on short streams under every chunking with 2- and 3-unit buffers, "
+              "and by random documents), translate_consts.py, harness + oracles.")
+TECHNIQUE = "Lean 4 proof by induction over chunkings with the carried scanner state as invariant, refinement (simulation) of the list-level lexer by the buffer-level scanner + exhaustive/random differential execution of the real fill functions, scanner and parser"
+
+# ---- group gV: the byte-level character source (ustream_read_chars, ucnv_toUnicode + callback, 4096-byte refills) ----
+LEAN_MODULES += ["CifModel.Props.C08Stream"]
+REQUIRED += ["CifModel.C08_ustream_buffer_link", "CifModel.C08_ustream_any_requests", "CifModel.C08_ustream_any_requests_utf8",
+             "CifModel.C08_ustream_any_requests_utf16", "CifModel.C08_ustream_call", "CifModel.C08_ustream_bytes_conserved",
+             "CifModel.C08_bytes_to_scanner", "CifModel.C08_utf8_incremental", "CifModel.C08_utf16_incremental"]
+FAMILIES += ["ustream"]
+PARTIAL += [
+    "byte level (supersedes the first item as far as ustream_read_chars is concerned): Model/Ustream.lean models ustream_read_chars, "
+    "the refill of the 4096-byte buffer, ucnv_toUnicode with the CIF callback (overflow buffer, replacement unit) over a converter "
+    "PARAMETER constrained by `Laws` (prefix-incrementality, progress, overflow only when full); C08_ustream_any_requests / "
+    "C08_bytes_to_scanner hold for every such converter, every byte string, every request-size sequence; the model's UTF-8 and "
+    "UTF-16LE/BE converters meet the contract (C08_utf8_incremental, C08_utf16_incremental) and are tied to ICU 72 by family "
+    "`ustream` (real ustream_read_chars on fmemopen files, every alignment around 4096·k, capacity 1, malformed input). NOT proved: "
+    "that the model's UTF-8 transducer equals an independent specification of UTF-8 (Unicode Table 3-7) — it is compared with "
+    "ICU and with a hand-written Python reference decoder by the family's oracle only; other ICU converters (the system default, "
+    "windows-1252, …) are covered only as instances of `Laws` that nothing establishes; fread's I/O-error return is not modelled; "
+    "C08_bytes_to_scanner composes the deliveries with Model/Fill as a chunked source (any request sizes on both sides), not the "
+    "pointer-level hand-over dest = buffer + buffer_limit",
+]
